@@ -33,6 +33,8 @@ struct Session {
     awaiting_ack: VecDeque<(usize, oneshot::Sender<Result<RxPacket, MqttError>>)>,
     subscriptions: VecDeque<(usize, mpsc::UnboundedSender<RxPacket>)>,
     retrasmit_queue: VecDeque<(usize, Bytes)>,
+    // Identifiers of inbound QoS 2 messages answered with PUBREC and not yet released by PUBREL.
+    inbound_qos2: Vec<u16>,
 }
 
 struct Connection {
@@ -95,6 +97,7 @@ where
         session.awaiting_ack.clear();
         session.subscriptions.clear();
         session.retrasmit_queue.clear();
+        session.inbound_qos2.clear();
     }
 
     fn validate_packet_size(connection: &Connection, packet: &[u8]) -> Result<(), MqttError> {
@@ -228,12 +231,23 @@ where
                 let qos = publish.qos;
                 let maybe_packet_id = publish.packet_identifier;
 
-                if let Some(subscription_identifier) =
-                    publish
-                        .subscription_identifier
-                        .map(|subscription_identifier| {
-                            NonZero::from(subscription_identifier).get().value() as usize
-                        })
+                // A QoS 2 PUBLISH repeated before its PUBREL is a re-delivery: acknowledge it again,
+                // but do not hand the message to the application a second time.
+                let mut redelivery = false;
+                if let (QoS::ExactlyOnce, Some(packet_id)) = (qos, maybe_packet_id) {
+                    if session.inbound_qos2.contains(&packet_id.get()) {
+                        redelivery = true;
+                    } else {
+                        session.inbound_qos2.push(packet_id.get());
+                    }
+                }
+
+                if let Some(subscription_identifier) = publish
+                    .subscription_identifier
+                    .filter(|_| !redelivery)
+                    .map(|subscription_identifier| {
+                        NonZero::from(subscription_identifier).get().value() as usize
+                    })
                 {
                     if let Some((_, subscription)) =
                         utils::linear_search_by_key(&session.subscriptions, subscription_identifier)
@@ -329,6 +343,7 @@ where
             }
             RxPacket::Pubrel(pubrel) => {
                 let packet_id = pubrel.packet_identifier;
+                session.inbound_qos2.retain(|id| *id != packet_id.get());
                 Self::ack::<PubcompReason>(tx, packet_id).await?
             }
             other => {
@@ -415,6 +430,7 @@ where
                     awaiting_ack: VecDeque::new(),
                     subscriptions: VecDeque::new(),
                     retrasmit_queue: VecDeque::new(),
+                    inbound_qos2: Vec::new(),
                 },
                 connection: Connection {
                     disconnection_timestamp: None,
